@@ -194,8 +194,12 @@ impl<'a, P, const SEED_SIZE: usize> ParameterizedDecode<(&'a Poplar1<P, SEED_SIZ
     ) -> Result<Self, CodecError> {
         let idpf_key = Seed::decode(bytes)?;
         let corr_seed = Seed::decode(bytes)?;
-        let mut corr_inner = Vec::with_capacity(poplar1.bits - 1);
-        for _ in 0..poplar1.bits - 1 {
+        let corr_inner_len = poplar1
+            .bits
+            .checked_sub(1)
+            .ok_or(CodecError::UnexpectedValue)?;
+        let mut corr_inner = Vec::with_capacity(corr_inner_len);
+        for _ in 0..corr_inner_len {
             corr_inner.push([Field64::decode(bytes)?, Field64::decode(bytes)?]);
         }
         let corr_leaf = [Field255::decode(bytes)?, Field255::decode(bytes)?];
